@@ -320,6 +320,15 @@ def all_obligations():
          what='transmit(): for every first code length 1..20 and padding 0..3 the 5-bit start value of the first table stays within 1..20 and lies exactly tree_pad steps from the real length',
          functions=['transmit (first-length section)'], flags=['--unwind', '8', '--unwinding-assertions'], expect=['first table: the 5-bit start value stays within'], assumed=XS, replayable=True))
 
+    # ---------------- encode.c do_mtf(): MTF + zero-run coder against the inverse of the format (C01 O1.3)
+    for n, a, tier in ((5, 3, 'quick'), (6, 4, 'thorough'), (7, 3, 'thorough')):
+        A(Ob(name=f'encode.do_mtf.n{n}a{a}', props=['C01', 'C02', 'C08'], kind='bounded', tier=tier, harness='h_do_mtf.c', entry='h_do_mtf', extra_srcs=['src/crctab.c'], solver='cadical',
+             defines={'MTF_N': str(n), 'MTF_A': str(a)}, bound=f'blocks of 1..{n} bytes over {a} distinct values, all symbolic',
+             what='do_mtf(): decoding its symbols with the inverse zero-run / move-to-front of the bzip2 format reproduces the block; at most n+1 symbols, last one end-of-block; '
+                  'the frequencies handed on are the counts of the symbols written',
+             functions=['do_mtf'], flags=['--unwind', str(n + 4), '--unwindset', 'h_do_mtf.0:258,do_mtf.1:257', '--unwinding-assertions'],
+             expect=['do_mtf: decoding the symbols', 'do_mtf: the symbol frequencies'], replayable=True, replay_src='encode.c'))
+
     # ---------------- encode.c collect(): one-step conformance with the greedy packing rule (C04 O4.1, C01 O1.1, C02 O2.4)
     # collect(): CBMC's pointer-overflow check is left out here (measured: 227 s -> 6 s per instance; every pointer the function forms is still bounds- and validity-checked when used)
     COLLECT_CHECKS = ['--bounds-check', '--pointer-check', '--signed-overflow-check', '--undefined-shift-check', '--div-by-zero-check']
